@@ -6,6 +6,14 @@ props = [json.loads(l) for l in open(os.path.join(V, "properties.jsonl"))]
 ids = [p["id"] for p in props]
 
 CLAIMS = {
+ "C10": dict(cat="other", tech="finite-domain evaluation of the printer's and scanner's escape tables over all 128 characters x 2 modes (inverse bijection), set comparison of printer case labels vs tags the scanner can produce, literal/keyword/prefix agreement printer -> scanner/checker, per-case union-member discipline",
+    text="Narrow claim (table agreement only): every character the printer escapes scans back to itself and vice versa in both quoting modes; the printer has a case for every tag and the scanner can produce every printed tag; reserved words and prefixes the printer emits are read back under the same tag by both readers, with the right truth value for true/false; inside the case of tag X printer, scanner and arg-val-math.c touch only X's union member. Numeric round trip, look-ahead, line breaking and range compression are not decided.",
+    note="Trusted: clang AST, sa/fdeval.py.",
+    ref="DESIGN.md 2 C10"),
+ "C11": dict(cat="other", tech="sibling-recogniser agreement between the syntax checker and the scanner: first-character sets, ordered token-class tests of the default branches (differently spelled tests evaluated over ~3300 probe strings with a model of the sscanf directives they use), keyword->tag tables, and evaluation of the white-space/comment skipping statements of the four entry loops over separator probes",
+    text="Narrow claim: the two hand-written recognisers dispatch on the same first characters, test the same token classes in the same order and agree on every probe string where a test is spelled differently (this is the rule that exposed the date test defect fixed here: \"0 0 -7\" was three integers for the checker and a time stamp for the scanner); they map the reserved words to the same tags; and every entry loop skips any run of white space and %-comments (several comments at one boundary included). Value denotation, ranges and canonicalisation are not decided.",
+    note="Trusted: clang AST, sa/fdeval.py, the sscanf model and probe sets in sa/rules/recog.py (agreement is established on the probes only).",
+    ref="DESIGN.md 2 C11"),
  "C04": dict(cat="other", tech="IR dominance and instruction-level path search in Ports::dispatch (d.port set / d.obj restored / d.loc truncated / NUL-terminated / matches counted), normalised-AST equality of the three type-matcher clones, post-dominance of refreshMagic in the table-building constructors, finite-domain comparison of run-time and build-time hash formulas",
     text="Protocol clauses only: each port callback runs with d.port set to its port, d.obj is restored after every callback, every path from a callback in the location branches to the next iteration or return cuts d.loc back to old_end and appended bytes are NUL-terminated before the callback; d.matches is incremented exactly for leaf ports and for default-handler calls; the three hand-written copies of the type-tag matcher (one used by the linear scan, one by the hashed lookup) are the same function; every constructor that fills the table ends in refreshMagic(); the hash computed at dispatch time is the formula the table was built with, and remap[t] is read only with t in range. Whether the perfect hash and the linear scan accept the same addresses for every table is not decided.",
     note="Trusted: clang AST/-O0 IR, sa/irlib.py, sa/rules/flow.py. Unwind edges are not followed.",
@@ -64,6 +72,10 @@ CLAIMS = {
     ref="DESIGN.md 2 C03"),
 }
 NA = {
+ "C15": "undo history: position/size bookkeeping over operation histories and a wall-clock merge window; no clause is a code shape (the /undo_change event format is decided on the producer side by C14 R14d)",
+ "C17": "metadata read-back is a property of a hand-written NUL/':'/'=' scanner over all byte strings; deciding it means executing the iterator on inputs, which is outside static analysis (the producer side alone is not a necessary condition of the iterator's behaviour)",
+ "C18": "collapsePath / apropos / path_search correctness lives in run-time index and string values (in-place pointer arithmetic, recursive partial matching, sort-and-filter over pairs); no structural necessary condition could be named without freezing a code fragment",
+ "C20": "which controller drives which callback is a function of the whole map/unmap/CC history over immutable snapshots rebuilt per step; no clause is visible in the code's shape",
 }
 DEFAULT_NA = "not yet implemented in this revision of the framework (see DESIGN.md section 2 for the planned rule)"
 
